@@ -99,6 +99,13 @@ func main() {
 	r := vh.NewRand(f.Seed)
 	g := &scangen.Gen{R: r, Corpus: scangen.LoadCorpus(0), Stat: o.Count}
 	o.Stats["corpus_files"] = len(g.Corpus)
+	// exhaustive small scope over the symbols that drive the hidden state (nParen, insertSemi)
+	depth := 4
+	if f.Tier == "thorough" {
+		depth = 6
+	}
+	scangen.Exhaustive(scangen.StateAlphabet, depth, func(b []byte) { one(b, 1); one(b, 0) })
+	o.Stats["exhaustive_state_depth"] = depth
 	if f.Tier == "thorough" {
 		// all byte strings up to length 3 over 24 symbols and up to length 5 over 8 symbols
 		al24 := []string{"a", "1", "0", " ", "\n", "\r", "/", "*", "#", "\"", "'", "`", "\\", ".", "_", "x", "e", "i", "c", "y", "=", "<", "!", "\x80"}
